@@ -203,8 +203,11 @@ class World:
                 raise SimAbort()
         if actor.kill_at is not None and actor.nops == actor.kill_at:
             self.kill(actor, kind)
-        if actor.err_at is not None and actor.nops == actor.err_at[0]:
+        if actor.err_at is not None and actor.nops >= actor.err_at[0] and (
+                len(actor.err_at) < 3 or kind in actor.err_at[2]):
+            # (with a kind filter: the first operation of that kind at or after the index)
             eno = actor.err_at[1]
+            actor.err_at = None
             self.fired["io-error@" + kind] += 1
             self.event(actor, "FAULT-io-error", path, eno)
             raise OSError(eno, os.strerror(eno), path)
